@@ -506,6 +506,42 @@ FUNCS = {
 ENV_FUNCS = {"compatible_tags", "cpython_tags", "_cpython_abis", "_get_config_var"}
 
 
+# ------------------------------------------------------------------------------------------------ x2: second round
+def _tag_obj(rng):
+    from packaging import tags as T
+    return T.Tag(rng.choice(["cp313", "CP39", "py3", "pp310", ""]), rng.choice(ABIS), rng.choice(PLATS))
+
+
+def _g_tag_method(rng):
+    return [_tag_obj(rng)]
+
+
+def _g_two_tags(rng):
+    from packaging import tags as T
+    a = _tag_obj(rng)
+    k = rng.random()
+    if k < 0.35:
+        b = T.Tag(_case(a.interpreter, rng), _case(a.abi, rng), _case(a.platform, rng))     # equal, other spelling
+    elif k < 0.7:                                                                            # one component differs
+        parts = [a.interpreter, a.abi, a.platform]
+        i = rng.randrange(3)
+        parts[i] = rng.choice([parts[i] + "x", parts[i][:-1], rng.choice(PLATS)])
+        b = T.Tag(*parts)
+    elif k < 0.9:
+        b = _tag_obj(rng)
+    else:
+        b = rng.choice([None, 1, "cp313-cp313-any", (a.interpreter, a.abi, a.platform)])
+    return [a, b]
+
+
+FUNCS.update({
+    "_BaseVersion.__ne__": ("packaging.version", "_BaseVersion.__ne__", _g_two_versions),
+    "Tag.__str__": ("packaging.tags", "Tag.__str__", _g_tag_method),
+    "Tag.__eq__": ("packaging.tags", "Tag.__eq__", _g_two_tags),
+    "Tag.__hash__": ("packaging.tags", "Tag.__hash__", _g_tag_method),
+})
+
+
 class _Src:
     def cases(self, rng, n, names):
         """n `src.call` cases spread over the named functions"""
